@@ -121,12 +121,14 @@ func (f *File) Close() error {
 		}
 
 		f.hd.BodySum = f.h.Sum(nil)
-		if _, err := f.f.Seek(0, io.SeekStart); ret == nil {
-			ret = err
-		}
 
-		if _, err := f.hd.WriteTo(f.f); ret == nil {
-			ret = err
+		// The header is what makes the entry verify: write it only when the
+		// body on disk is what was written. Otherwise the placeholder stays.
+		if ret == nil {
+			_, ret = f.f.Seek(0, io.SeekStart)
+		}
+		if ret == nil {
+			_, ret = f.hd.WriteTo(f.f)
 		}
 
 		return ret
